@@ -53,6 +53,8 @@ enum Zp {
     None,
     Uniform(i32),
     Alt(i32, i32),
+    /// non-periodic: (i*37+11) mod 256 + offset (offset 0 for u8, -128 for i8)
+    Ramp(i32),
 }
 
 impl Zp {
@@ -61,16 +63,21 @@ impl Zp {
             Zp::None => None,
             Zp::Uniform(v) => Some(vec![v; n]),
             Zp::Alt(a, b) => Some((0..n).map(|i| if i % 2 == 0 { a } else { b }).collect()),
+            Zp::Ramp(off) => Some((0..n).map(|i| ((i * 37 + 11) % 256) as i32 + off).collect()),
         }
     }
     fn json(self) -> Json {
         match self {
+            Zp::Ramp(off) => json!({"ramp": off}),
             Zp::None => json!("none"),
             Zp::Uniform(v) => json!({"uniform": v}),
             Zp::Alt(a, b) => json!({"alternating": [a, b]}),
         }
     }
     fn from_json(j: &Json) -> Zp {
+        if let Some(v) = j.get("ramp") {
+            return Zp::Ramp(v.as_i64().unwrap_or(0) as i32);
+        }
         if let Some(v) = j.get("uniform") {
             Zp::Uniform(v.as_i64().unwrap_or(0) as i32)
         } else if let Some(v) = j.get("alternating") {
@@ -167,17 +174,15 @@ impl Case {
 
 const SENTINEL: i32 = 0x7bad_beef;
 
-/// Exact reference for the case; `ignore_packed_zp`: zero points of prepacked operands taken as 0.
-fn reference(c: &Case, ignore_packed_zp: bool) -> Vec<i64> {
+/// Exact product for the case with the given effective zero points.
+fn reference_with(c: &Case, az_eff: &dyn Fn(usize) -> i64, bz_eff: &dyn Fn(usize) -> i64) -> Vec<i64> {
     let (m, k, n) = (c.m, c.k, c.n);
-    let az = c.az.vec(m);
-    let bz = c.bz.vec(n);
     let prev = |i: usize| -> i32 { ((i * 37) % 1001) as i32 - 500 };
     let mut r = vec![0i64; m * n];
     for i in 0..m {
-        let azv = if ignore_packed_zp && c.a_packed { 0 } else { az.as_ref().map(|z| z[i] as u8 as i64).unwrap_or(0) };
+        let azv = az_eff(i);
         for j in 0..n {
-            let bzv = if ignore_packed_zp && c.b_packed { 0 } else { bz.as_ref().map(|z| z[j] as i8 as i64).unwrap_or(0) };
+            let bzv = bz_eff(j);
             let mut acc: i64 = 0;
             for kk in 0..k {
                 acc += (c.a.at(i, kk) as u8 as i64 - azv) * (c.b.at(kk, j) as i8 as i64 - bzv);
@@ -191,8 +196,68 @@ fn reference(c: &Case, ignore_packed_zp: bool) -> Vec<i64> {
     r
 }
 
+/// Exact reference for the case; `ignore_packed_zp`: zero points of prepacked operands taken as 0.
+fn reference(c: &Case, ignore_packed_zp: bool) -> Vec<i64> {
+    let az = c.az.vec(c.m);
+    let bz = c.bz.vec(c.n);
+    let a_off = ignore_packed_zp && c.a_packed;
+    let b_off = ignore_packed_zp && c.b_packed;
+    reference_with(
+        c,
+        &|i| if a_off { 0 } else { az.as_ref().map(|z| z[i] as u8 as i64).unwrap_or(0) },
+        &|j| if b_off { 0 } else { bz.as_ref().map(|z| z[j] as i8 as i64).unwrap_or(0) },
+    )
+}
+
+static PANEL_CACHE: std::sync::Mutex<Vec<(String, usize, usize)>> = std::sync::Mutex::new(Vec::new());
+
+/// Index used under the "first panel" hypothesis: inside each cache block of
+/// `blk` rows/columns, every full panel of `pr` lanes takes the zero points of
+/// the block's first panel; the tail panel is indexed correctly.
+fn first_panel_index(i: usize, total: usize, blk: usize, pr: usize) -> usize {
+    let bs = (i / blk) * blk;
+    let len = (bs + blk).min(total) - bs;
+    let local = i - bs;
+    let full = (len / pr) * pr;
+    if local < full { bs + local % pr } else { i }
+}
+
+/// Hypothesis: pack_a / pack_b index `zero_point` by lane only in full panels.
+/// Zero points of prepacked operands are additionally taken as 0 (see the
+/// other hypothesis). Returns the (MR, NR) that explains the output.
+fn first_panel_hypothesis(c: &Case, out: &[i32]) -> Option<(usize, usize)> {
+    let az = c.az.vec(c.m);
+    let bz = c.bz.vec(c.n);
+    let try_pair = |mr: usize, nr: usize| -> bool {
+        let mc = 64usize.min(c.m).next_multiple_of(mr);
+        let nc = 128usize.min(c.n).next_multiple_of(nr);
+        let r = reference_with(
+            c,
+            &|i| if c.a_packed { 0 } else { az.as_ref().map(|z| z[first_panel_index(i, c.m, mc, mr)] as u8 as i64).unwrap_or(0) },
+            &|j| if c.b_packed { 0 } else { bz.as_ref().map(|z| z[first_panel_index(j, c.n, nc, nr)] as i8 as i64).unwrap_or(0) },
+        );
+        (0..r.len()).all(|i| out[i] as i64 == r[i])
+    };
+    let cached = PANEL_CACHE.lock().unwrap().iter().find(|e| e.0 == c.kernel).map(|e| (e.1, e.2));
+    if let Some((mr, nr)) = cached {
+        return if try_pair(mr, nr) { Some((mr, nr)) } else { None };
+    }
+    // probe only on cases where both panel sizes matter
+    for mr in [4usize, 6, 8, 12, 14, 16] {
+        for nr in [4usize, 8, 16, 32, 64] {
+            if try_pair(mr, nr) {
+                if c.m > 2 * mr && c.n > 2 * nr && c.az != Zp::None && c.bz != Zp::None && !c.a_packed && !c.b_packed {
+                    PANEL_CACHE.lock().unwrap().push((c.kernel.clone(), mr, nr));
+                }
+                return Some((mr, nr));
+            }
+        }
+    }
+    None
+}
+
 /// Returns None if correct, else (index, got, expected, explained_by_ignored_zero_point).
-fn run_case(exec: &Exec, c: &Case) -> Result<Option<(usize, i32, i64, bool)>, String> {
+fn run_case(exec: &Exec, c: &Case) -> Result<Option<(usize, i32, i64, &'static str)>, String> {
     let (m, k, n) = (c.m, c.k, c.n);
     let a: Vec<u8> = (0..m * k).map(|x| c.a.at(x / k, x % k) as u8).collect();
     // B storage: row-major [k,n] or column-major
@@ -235,7 +300,13 @@ fn run_case(exec: &Exec, c: &Case) -> Result<Option<(usize, i32, i64, bool)>, St
     let exp = reference(c, false);
     if let Some(i) = (0..m * n).find(|&i| out[i] as i64 != exp[i]) {
         let alt = reference(c, true);
-        let explained = (c.a_packed || c.b_packed) && (0..m * n).all(|i| out[i] as i64 == alt[i]);
+        let explained = if (c.a_packed || c.b_packed) && (0..m * n).all(|i| out[i] as i64 == alt[i]) {
+            "prepacked-zp-ignored"
+        } else if first_panel_hypothesis(c, &out).is_some() {
+            "first-panel-zp"
+        } else {
+            ""
+        };
         return Ok(Some((i, out[i], exp[i], explained)));
     }
     Ok(None)
@@ -254,11 +325,11 @@ fn check(ctx: &Ctx, exec: &Exec, c: &Case, verdict: bool, range: &str, t: &mut T
         Ok(Ok(Some((idx, got, exp, explained)))) => {
             if verdict {
                 let what = if got == SENTINEL { "output element not written" } else { "wrong value" };
-                let sig = if explained {
+                let sig = match explained {
                     // one root cause for every kernel that keeps zero points in the packed panels
-                    "int8 gemm: zero points passed to gemm() are ignored for operands packed with prepack_a / prepack_b (result equals the product with those zero points = 0)".to_string()
-                } else {
-                    c.signature(what, range)
+                    "prepacked-zp-ignored" => "int8 gemm: zero points passed to gemm() are ignored for operands packed with prepack_a / prepack_b (result equals the product with those zero points = 0)".to_string(),
+                    "first-panel-zp" => "int8 gemm: per-row / per-column zero points of the second and later full MR/NR panels are taken from the first panel (result equals the product with zero_point[i mod MR], zero_point[j mod NR])".to_string(),
+                    _ => c.signature(what, range),
                 };
                 ctx.violation(sig, c.json(), format!("kernel {}: out[{},{}] = {got}, exact value {exp}; case {}", c.kernel, idx / c.n, idx % c.n, c.json()));
             } else {
@@ -283,6 +354,7 @@ const I_FULL: [i32; 7] = [-128, -127, -1, 0, 1, 126, 127];
 const U_RED: [i32; 7] = [0, 1, 2, 63, 64, 126, 127];
 const I_RED: [i32; 7] = [-64, -63, -1, 0, 1, 62, 63];
 const AZ: [i32; 4] = [0, 1, 128, 255];
+const MS_C: [usize; 7] = [1, 5, 17, 34, 65, 130, 257];
 const BZ: [i32; 4] = [-128, -1, 0, 127];
 
 fn kernel_part(ctx: &Ctx, thorough: bool, samples: &Samples) -> (u64, u64, Json) {
@@ -301,6 +373,17 @@ fn kernel_part(ctx: &Ctx, thorough: bool, samples: &Samples) -> (u64, u64, Json)
         }
         for zi in 0..az_all.len() {
             items.push((ki, b'B', zi));
+        }
+        for mi in 0..MS_C.len() {
+            items.push((ki, b'C', mi));
+        }
+    }
+    // determine each kernel's panel sizes once (used only to classify failures)
+    for exec in rten_gemm::verif::int8_executors() {
+        let probe = Case { kernel: exec.kernel_name().to_string(), m: 130, k: 1, n: 130, a: Fill::Const(100), b: Fill::Const(-50), az: Zp::Ramp(0), bz: Zp::Ramp(-128), b_col_major: false, a_packed: false, b_packed: false, entry: "gemm" };
+        match vp_core::catch(|| run_case(&exec, &probe)) {
+            Ok(Ok(Some(_))) => {}
+            _ => PANEL_CACHE.lock().unwrap().push((probe.kernel.clone(), 1, 1)),
         }
     }
     let results = vp_core::par::map(items.len(), |ii| {
@@ -331,6 +414,28 @@ fn kernel_part(ctx: &Ctx, thorough: bool, samples: &Samples) -> (u64, u64, Json)
                                     (Zp::Uniform(128), Zp::Alt(127, -1), "gemm_beta1", true),
                                 ] {
                                     let c = Case { kernel: kernel.clone(), m, k, n, a: *a, b: *b, az, bz, b_col_major: col, a_packed: false, b_packed: false, entry };
+                                    check(ctx, exec, &c, verdict, rname, &mut t);
+                                }
+                            }
+                        }
+                    }
+                }
+            } else if sub == b'C' {
+                // box C: larger M/N (several tiles and row blocks) x non-periodic zero points
+                let m = MS_C[idx];
+                let (lo_u, hi_u, lo_i, hi_i) = (ua[0], ua[6], ia[0], ia[6]);
+                for &n in &MS_C {
+                    for &k in &[1usize, 4, 33] {
+                        for (az, bz) in [(Zp::Ramp(0), Zp::None), (Zp::None, Zp::Ramp(-128)), (Zp::Ramp(0), Zp::Ramp(-128))] {
+                            for (a, b) in [(Fill::Const(hi_u), Fill::Const(lo_i)), (Fill::Checker(lo_u, hi_u), Fill::Checker(hi_i, lo_i)), (Fill::Const(ua[3]), Fill::Checker(-1, ia[5]))] {
+                                for variant in 0..4 {
+                                    let c = Case {
+                                        kernel: kernel.clone(), m, k, n, a, b, az, bz,
+                                        b_col_major: variant == 1,
+                                        a_packed: variant == 2,
+                                        b_packed: variant == 2 || variant == 3,
+                                        entry: if variant % 2 == 0 { "gemm" } else { "gemm_uninit" },
+                                    };
                                     check(ctx, exec, &c, verdict, rname, &mut t);
                                 }
                             }
@@ -392,6 +497,7 @@ fn kernel_part(ctx: &Ctx, thorough: bool, samples: &Samples) -> (u64, u64, Json)
         "kernels": names.iter().map(|(n, s)| json!({"name": n, "may_saturate": s})).collect::<Vec<_>>(),
         "box_A": {"fills_per_operand": fills(&U_FULL).len(), "zero_point_combos": 3, "m_n": ms_a, "k": ks_a},
         "box_B": {"a_zero_points": az_all.len(), "b_zero_points": bz_all.len(), "fill_pairs": 6, "m_n": ms, "k": ks, "variants": ["B row-major", "B column-major", "A+B prepacked", "B prepacked"]},
+        "box_C": {"m_n": MS_C, "k": [1, 4, 33], "zero_points": "non-periodic ramp on a, on b, on both", "fill_pairs": 3, "variants": 4},
         "u8_alphabet": U_FULL, "i8_alphabet": I_FULL, "reduced_u8": U_RED, "reduced_i8": I_RED,
         "saturating_kernel_full_range_mismatches": sat_by_kernel,
     });
@@ -429,13 +535,21 @@ fn matmul_integer_part(ctx: &Ctx, thorough: bool, samples: &Samples) -> (u64, u6
     } else {
         vec![(1, 4, 5), (2, 3, 2), (5, 9, 17), (17, 33, 5)]
     };
+    // (name, B is an initializer, load with prepack_weights, A batch dims, B batch dims)
+    let forms: [(&str, bool, bool, usize, usize); 5] = [
+        ("b=input", false, false, 0, 0),
+        ("b=initializer", true, false, 0, 0),
+        ("b=initializer+prepack_weights", true, true, 0, 0),
+        ("a=[2,M,K] b=[K,N]", false, false, 2, 0),
+        ("a=[M,K] b=[2,K,N]", false, false, 0, 2),
+    ];
     for a_unsigned in [true, false] {
         for b_unsigned in [false, true] {
             let ua: &[i32] = if a_unsigned { &[0, 1, 128, 255] } else { &[-128, -1, 1, 127] };
             let ub: &[i32] = if b_unsigned { &[0, 2, 127, 255] } else { &[-128, -127, 1, 127] };
             for &(m, k, n) in &shapes {
                 for zp_form in ["none", "scalar", "vector"] {
-                    for b_const in [false, true] {
+                    for (form, b_const, prepack, a_batch, b_batch) in forms {
                         for (fa, fb) in [
                             (Fill::Const(ua[3]), Fill::Const(ub[0])),
                             (Fill::Checker(ua[0], ua[3]), Fill::Checker(ub[0], ub[3])),
@@ -455,12 +569,17 @@ fn matmul_integer_part(ctx: &Ctx, thorough: bool, samples: &Samples) -> (u64, u6
                                 _ => (0..n).map(|i| ub[(i + 1) % 4]).collect(),
                             };
                             let (ta, tb) = (if a_unsigned { dtype::UINT8 } else { dtype::INT8 }, if b_unsigned { dtype::UINT8 } else { dtype::INT8 });
+                            let a_dims: Vec<usize> = if a_batch > 0 { vec![a_batch, m, k] } else { vec![m, k] };
+                            let b_dims: Vec<usize> = if b_batch > 0 { vec![b_batch, k, n] } else { vec![k, n] };
+                            let a_full: Vec<i32> = (0..a_batch.max(1)).flat_map(|_| a.iter().copied()).collect();
+                            let b_full: Vec<i32> = (0..b_batch.max(1)).flat_map(|_| b.iter().copied()).collect();
+                            let to_i64 = |d: &[usize]| d.iter().map(|x| *x as i64).collect::<Vec<i64>>();
                             let mut g = Graph::new("mmi");
-                            g.inputs.push(ValueInfo::fixed("A", ta, &[m as i64, k as i64]));
+                            g.inputs.push(ValueInfo::fixed("A", ta, &to_i64(&a_dims)));
                             if b_const {
-                                g.initializers.push(int_tensor("B", &[k as i64, n as i64], &b, b_unsigned));
+                                g.initializers.push(int_tensor("B", &to_i64(&b_dims), &b_full, b_unsigned));
                             } else {
-                                g.inputs.push(ValueInfo::fixed("B", tb, &[k as i64, n as i64]));
+                                g.inputs.push(ValueInfo::fixed("B", tb, &to_i64(&b_dims)));
                             }
                             let mut ins = vec!["A", "B"];
                             if zp_form != "none" {
@@ -472,20 +591,30 @@ fn matmul_integer_part(ctx: &Ctx, thorough: bool, samples: &Samples) -> (u64, u6
                                 ins.push("bz");
                             }
                             g.nodes.push(Node::new("MatMulInteger", &ins, &["Y"]));
-                            g.outputs.push(ValueInfo::fixed("Y", dtype::INT32, &[m as i64, n as i64]));
+                            let batch = a_batch.max(b_batch);
+                            let out_dims: Vec<usize> = if batch > 0 { vec![batch, m, n] } else { vec![m, n] };
+                            g.outputs.push(ValueInfo::fixed("Y", dtype::INT32, &to_i64(&out_dims)));
                             cases += 1;
-                            let case = json!({"kind": "MatMulInteger", "a_unsigned": a_unsigned, "b_unsigned": b_unsigned, "m": m, "k": k, "n": n, "zero_points": zp_form, "b_initializer": b_const, "a_fill": fa.json(), "b_fill": fb.json()});
-                            let sig_base = format!("MatMulInteger({}x{}) zero_points={zp_form} b={}", if a_unsigned { "u8" } else { "i8" }, if b_unsigned { "u8" } else { "i8" }, if b_const { "initializer" } else { "input" });
-                            let model = match load(&g) {
+                            let case = json!({"kind": "MatMulInteger", "a_unsigned": a_unsigned, "b_unsigned": b_unsigned, "m": m, "k": k, "n": n, "zero_points": zp_form, "form": form, "a_fill": fa.json(), "b_fill": fb.json()});
+                            let sig_base = format!("MatMulInteger({}x{}) zero_points={zp_form} {form}", if a_unsigned { "u8" } else { "i8" }, if b_unsigned { "u8" } else { "i8" });
+                            let bytes = vp_onnx::model_bytes(&g);
+                            let loaded = if prepack {
+                                let mut o = rten::ModelOptions::with_all_ops();
+                                o.prepack_weights(true);
+                                o.load(bytes).map_err(|e| format!("{e}"))
+                            } else {
+                                rten::Model::load(bytes).map_err(|e| format!("{e}"))
+                            };
+                            let model = match loaded {
                                 Ok(mo) => mo,
                                 Err(e) => {
                                     ctx.violation(format!("{sig_base}: model does not load"), case, e);
                                     continue;
                                 }
                             };
-                            let mut inputs = vec![(model.node_id("A").unwrap(), value_of(&a, &[m, k], a_unsigned).into())];
+                            let mut inputs = vec![(model.node_id("A").unwrap(), value_of(&a_full, &a_dims, a_unsigned).into())];
                             if !b_const {
-                                inputs.push((model.node_id("B").unwrap(), value_of(&b, &[k, n], b_unsigned).into()));
+                                inputs.push((model.node_id("B").unwrap(), value_of(&b_full, &b_dims, b_unsigned).into()));
                             }
                             let out_id = model.node_id("Y").unwrap();
                             let r = vp_core::catch(|| model.run(inputs, &[out_id], None));
@@ -508,20 +637,31 @@ fn matmul_integer_part(ctx: &Ctx, thorough: bool, samples: &Samples) -> (u64, u6
                             };
                             let yd = y.to_vec();
                             let mut bad = None;
-                            if y.shape() != [m, n] {
-                                bad = Some(format!("output shape {:?}", y.shape()));
+                            if y.shape() != &out_dims[..] {
+                                bad = Some(format!("output shape {:?} expected {:?}", y.shape(), out_dims));
                             } else {
-                                'outer: for i in 0..m {
-                                    for j in 0..n {
-                                        let azv = if az.is_empty() { 0 } else { az[i % az.len()] } as i64;
-                                        let bzv = if bz.is_empty() { 0 } else { bz[j % bz.len()] } as i64;
-                                        let mut acc = 0i64;
-                                        for kk in 0..k {
-                                            acc += (a[i * k + kk] as i64 - azv) * (b[kk * n + j] as i64 - bzv);
-                                        }
-                                        if yd[i * n + j] as i64 != acc {
-                                            bad = Some(format!("Y[{i},{j}] = {} exact {acc}", yd[i * n + j]));
-                                            break 'outer;
+                                'outer: for bi in 0..batch.max(1) {
+                                    for i in 0..m {
+                                        for j in 0..n {
+                                            let azv = if az.is_empty() { 0 } else { az[i % az.len()] } as i64;
+                                            let bzv = if bz.is_empty() { 0 } else { bz[j % bz.len()] } as i64;
+                                            let mut acc = 0i64;
+                                            for kk in 0..k {
+                                                acc += (a[i * k + kk] as i64 - azv) * (b[kk * n + j] as i64 - bzv);
+                                            }
+                                            let got = yd[(bi * m + i) * n + j] as i64;
+                                            if got != acc {
+                                                // would ignoring a zero point explain it?
+                                                let mut acc_a0 = 0i64;
+                                                let mut acc_b0 = 0i64;
+                                                for kk in 0..k {
+                                                    acc_a0 += (a[i * k + kk] as i64) * (b[kk * n + j] as i64 - bzv);
+                                                    acc_b0 += (a[i * k + kk] as i64 - azv) * (b[kk * n + j] as i64);
+                                                }
+                                                let why = if got == acc_a0 { " (= product with a_zero_point ignored)" } else if got == acc_b0 { " (= product with b_zero_point ignored)" } else { "" };
+                                                bad = Some(format!("Y[{bi},{i},{j}] = {got} exact {acc}{why}"));
+                                                break 'outer;
+                                            }
                                         }
                                     }
                                 }
